@@ -3,6 +3,9 @@
  *   followed by <nsess> lines in the grammar of harness/drv_dec.c ("D ...")
  * Each session's life cycle is cut into single API calls; the schedule says whose next call runs
  * (exhausted sessions are skipped; when the schedule ends the remaining calls run round-robin).
+ * A schedule that starts with 'N' (or 'M': without the limit of three) additionally NESTS: whenever a decoded-source-symbol callback of one session fires, up to three
+ * pending API calls of the other sessions are executed from inside the callback (the other sessions' calls then run while the
+ * first session is in the middle of one of its own).
  * Answer: one line per session, same tokens as drv_dec.c without H/Y/LK (so that it can be compared
  * with the same request run alone in a fresh process). */
 #include <stdio.h>
@@ -21,9 +24,11 @@ typedef struct {
 	int esis[4 * MAXSYM], nesi; UINT32 n;
 	of_session_t *enc, *dec; void *enc_tab[MAXSYM], *recv_tab[MAXSYM], *avail_tab[MAXSYM], *src_tab[MAXSYM]; unsigned char *orig[MAXSYM];
 	void *cb_buf[MAXSYM]; int ncb, ncbbuf, cb_esi[MAXSYM], cb_kind[MAXSYM], cb_size[MAXSYM];
-	int pc, done, ro, dec_ok; char *obuf; size_t olen; FILE *o; uint64_t sm;
+	int pc, done, ro, dec_ok, busy; char *obuf; size_t olen; FILE *o; uint64_t sm;
 } sess_t;
 static sess_t S[MAXS];
+static int nested, depth, nsess, nest_budget;
+static int step(sess_t *s);
 
 static uint64_t sm_next(sess_t *s) { uint64_t z = (s->sm += 0x9E3779B97F4A7C15ULL); z = (z ^ (z >> 30)) * 0xBF58476D1CE4E5B9ULL; z = (z ^ (z >> 27)) * 0x94D049BB133111EBULL; return z ^ (z >> 31); }
 static void *src_cb(void *ctx, UINT32 size, UINT32 esi)
@@ -31,6 +36,12 @@ static void *src_cb(void *ctx, UINT32 size, UINT32 esi)
 	sess_t *s = ctx; void *p = NULL;
 	s->cb_esi[s->ncb] = esi; s->cb_kind[s->ncb] = 's'; s->cb_size[s->ncb] = size; s->ncb++;
 	if (s->cbmode == 1 || (s->cbmode == 3 && (s->ncb & 1))) { p = malloc(size ? size : 1); s->cb_buf[s->ncbbuf++] = p; }
+	if (nested && depth == 0) {
+		int me = (int)(s - S), t, budget = nest_budget;
+		depth++;
+		for (t = 1; t < nsess && budget > 0; t++) { sess_t *o = &S[(me + t) % nsess]; while (budget > 0 && !o->done && !o->busy) { step(o); budget--; } }
+		depth--;
+	}
 	return p;
 }
 static void *rep_cb(void *ctx, UINT32 size, UINT32 esi) { sess_t *s = ctx; s->cb_esi[s->ncb] = esi; s->cb_kind[s->ncb] = 'r'; s->cb_size[s->ncb] = size; s->ncb++; return NULL; }
@@ -52,10 +63,13 @@ static void masks(sess_t *s)
 	else fputc('-', s->o);
 }
 /* program: 0 create enc, 1 set enc, 2..1+r build, then create dec, set dec, submissions, finish, verdict+release */
-static int step(sess_t *s)
+static int step1(sess_t *s);
+static int step(sess_t *s) { int rc; if (s->busy) return 0; s->busy = 1; rc = step1(s); s->busy = 0; return rc; }
+static int step1(sess_t *s)
 {
-	UINT32 i, j; of_status_t st; long k = s->k, r = s->r, L = s->L; int pc = s->pc++;
+	UINT32 i, j; of_status_t st; long k = s->k, r = s->r, L = s->L; int pc;
 	if (s->done) return 0;
+	pc = s->pc++;
 	if (pc == 0) { of_create_codec_instance(&s->enc, (of_codec_id_t)s->codec, OF_ENCODER, 0); return 1; }
 	if (pc == 1) {
 		st = set_params(s->enc, s->codec, k, r, L, s->p1, s->p2); fprintf(s->o, "P%d", st);
@@ -134,7 +148,8 @@ int main(void)
 			while ((tok = strtok(NULL, " \n"))) s->esis[s->nesi++] = atoi(tok);
 			s->n = s->k + s->r; s->sm = s->seed; s->o = open_memstream(&s->obuf, &s->olen);
 		}
-		for (p = sched; *p; ) { int id = strtol(p, &p, 10); if (*p == ',') p++; if (id >= 0 && id < ns) step(&S[id]); }
+		nsess = ns; nested = (sched[0] == 'N' || sched[0] == 'M'); nest_budget = sched[0] == 'M' ? 100000 : 3; depth = 0;   /* M: the other sessions run to their end inside the first callback */
+		for (p = sched + (nested ? 1 : 0); *p; ) { int id = strtol(p, &p, 10); if (*p == ',') p++; if (id >= 0 && id < ns) step(&S[id]); }
 		do { alive = 0; for (i = 0; i < ns; i++) if (!S[i].done) { step(&S[i]); alive = 1; } } while (alive);
 		for (i = 0; i < ns; i++) { fclose(S[i].o); fprintf(out, "R %s\n", S[i].obuf); free(S[i].obuf); }
 	}
